@@ -1,14 +1,13 @@
 #!/bin/sh
 # usage: tools/with_patch.sh <patch.diff> <command...>
-# Applies the patch to /repo's working tree, runs the command from /verif, and always undoes the
-# patch afterwards (git apply -R). Used for sensitivity runs against seeded changes; never commits.
+# Runs the command (from /verif) against a throw-away worktree of /repo HEAD with the patch
+# applied: the worktree is created under /tmp, exported as VERIF_REPO (which ./check honours),
+# and removed afterwards. /repo itself is never touched, so this can run while other checks use it.
 set -u
 P="$(cd "$(dirname "$1")" && pwd)/$(basename "$1")"; shift
 cd "$(dirname "$0")/.."
-if ! git -C /repo diff --quiet; then echo "with_patch: /repo working tree is dirty, refusing" >&2; exit 2; fi
-git -C /repo apply "$P" || { echo "with_patch: patch does not apply" >&2; exit 2; }
-"$@"
-rc=$?
-git -C /repo apply -R "$P" || { echo "with_patch: could not undo the patch; run git -C /repo checkout -- ." >&2; }
-git -C /repo diff --quiet || echo "with_patch: WARNING /repo is still dirty" >&2
-exit $rc
+WT=/tmp/mut-$$
+git -C /repo worktree add -q --detach $WT HEAD || exit 2
+trap 'git -C /repo worktree remove --force '$WT' >/dev/null 2>&1; rm -f .build/*'"$(printf %s $WT | sha256sum | cut -c1-8)"'*' EXIT
+git -C $WT apply "$P" || { echo "with_patch: patch does not apply" >&2; exit 2; }
+VERIF_REPO=$WT "$@"
